@@ -7,7 +7,7 @@ PROPERTY = 'C04'
 LEVEL = 'exploration'
 RULE = ('every sequence of <=k operations over {shell, exec_out, streaming_shell, root, list, stat, pull, push} on one connection (ids and leftover state chain) x '
         'remote-id families {small, 32-bit extremes, reused id, mirrored ids} x maxdata {4096, 64 KiB, 1 MiB} x chunkings {one, two, byte-wise} x CLSE {after ack, eager} x '
-        'push size {single, multi WRTE} x twins, device wire order enumerated; a slow device (late WRTE/CLSE against timeout_s, late OKAY inside a multi-WRTE push, late confirmation of a host-initiated close); the device closing the stream on its own after 0..3 WRTEs; oracle: the stream monitor of mc/monitor.py (OPEN shape and fresh id, '
+        'push size {single, multi WRTE} x twins, device wire order enumerated; a slow device (late WRTE/CLSE against timeout_s, late OKAY inside a multi-WRTE push, late confirmation of a host-initiated close); the device closing the stream on its own after 0..3 WRTEs; the device refusing the OPEN; oracle: the stream monitor of mc/monitor.py (OPEN shape and fresh id, '
         '(local, announced remote) on every later packet, host OKAYs == device WRTEs, stop-and-wait, exactly one CLSE, nothing after it), the model stalling '
         'on a missing OKAY, and each result equal to the model\'s ground truth; non-trivial = sequence non-empty; distinct = distinct parameter tuple')
 ASSUMPTIONS = ['adbsim is a faithful adbd model', 'completion rules are asserted on operations that succeed (the quantifier of C04)']
@@ -227,6 +227,35 @@ def run_dies(params, ch):
         s.finish()
 
 
+def run_refused(params, ch):
+    """The device refuses an OPEN (CLSE with arg0 = 0, as adbd does for a service it cannot start).  The stream was never established:
+    apart from the OPEN the host sends nothing that carries its id, the call fails, and the next operation works."""
+    cfg = scen.ops_cfg('two', 4096, 'after-ack', params['family'])
+    dest = {'shell': b'shell:c', 'exec_out': b'exec:c', 'streaming_shell': b'shell:c', 'root': b'root:'}.get(params['op'], b'sync:')
+    cfg['reject_open'] = [dest]
+    s = Session(ch, cfg, twin=params['twin'], eps=0.001)
+    try:
+        s.op(('connect',))
+        kw = {'transport_timeout_s': 0.05, 'read_timeout_s': 0.2}
+        op = scen.op_tuple(params['op'], 5000)
+        op = op[:-1] + (dict(op[-1], **kw),) if isinstance(op[-1], dict) else op + (kw,)
+        r = s.op(op)
+        follow = 'stat' if dest != b'sync:' else 'exec_out' if dest != b'exec:c' else 'shell'
+        r2 = s.op(scen.op_tuple(follow))
+        viol = oracle.base_viol(s, completed=False)
+        if r[0] == 'ok':
+            viol.append({'msg': '%s returned %r although the device refused to open the stream' % (params['op'], r[1])})
+        if r2 != scen.op_expected(follow, cfg):
+            viol.append({'msg': '%s after a refused open returned %r' % (follow, r2)})
+        refused_id = next((p.a0 for w, p in s.env.events if w == 'H' and p.cmd == b'OPEN'), None)
+        later = [(p.cmd, p.a0, p.a1) for w, p in s.env.events if w == 'H' and p.cmd != b'OPEN' and p.cmd != b'CNXN' and p.a0 == refused_id]
+        if later:
+            viol.append({'msg': 'the device refused the OPEN of stream %r, yet the host went on sending on it: %r' % (refused_id, later[:3])})
+        return {'outcome': (r[:2], r2[0]), 'viol': viol, 'nontrivial': tuple(sorted((k, str(v)) for k, v in params.items())), 'sample': dict(params, result=r[:2]), 'trans': len(s.env.events)}
+    finally:
+        s.finish()
+
+
 def run_interleaved(params, ch):
     """Two live streams on one thread: a suspended streaming_shell whose packets get parked while another operation runs."""
     from . import c01
@@ -284,5 +313,7 @@ def parts(tier):
            for t in ('sync', 'async')]
     dies = Part('device-closes-early', sc8, run_dies, {'dev-order': None}, what='the device closes the stream on its own after 0..3 of its WRTEs (service died), for each of the 8 operations; then another operation',
                 bound='%d cases' % len(sc8))
-    return [early, okord, inflight, inter, aband, slow, dies, Part('op-sequences', sc, run_seq, {'dev-order': None}, what='operation sequences of length <=%d x device parameters' % k,
+    sc9 = [{'op': o, 'family': f, 'twin': t} for o in scen.OPS8 for f in ('small', 'extreme', 'mirror') for t in ('sync', 'async')]
+    refused = Part('refused-open', sc9, run_refused, {'dev-order': None}, what='the device refuses the OPEN of each of the 8 operations (CLSE with arg0 = 0); then another operation', bound='%d cases' % len(sc9), min_outcomes=1)
+    return [early, okord, inflight, inter, aband, slow, dies, refused, Part('op-sequences', sc, run_seq, {'dev-order': None}, what='operation sequences of length <=%d x device parameters' % k,
                       bound='length <=%d%s' % (k, '; length-3 sequences at maxdata 4096 only' if k == 3 else ''))]
